@@ -105,6 +105,14 @@ SizeClass(Nn, Ne) == IF Ne = 1 THEN "one-element" ELSE IF Nn = Ne THEN "equal" E
                      ELSE IF \E c \in 2..6 : (c * Nn) % Ne = 0 \/ (c * Ne) % Nn = 0 THEN "multiple-with-components" ELSE "generic"
 Classes == {<<Obs[i].sim, SizeClass(Obs[i].Nn, Obs[i].Ne)>> : i \in 1..Len(Obs)}
 
+(* "reactions on fully constrained boundaries balance the applied loads": the configurations on which the rule is replayed.  *)
+(* A body clamped on x = 0 and loaded by a uniform traction on x = L: the sum of the reactions over the clamped dofs of one     *)
+(* direction is minus the resultant of the traction in that direction, for every kind that offers reactions (the linear ones), *)
+(* in 2-D and 3-D, on a coarse and on a finer mesh (node numbers of the boundary below / above the number of nodes), with the   *)
+(* displacement problem named explicitly where the simulation has several problems.                                            *)
+BalanceCases == {[sim |-> s, dim |-> d, fine |-> f, damaged |-> dm] :
+                    s \in {"Elastic", "PhaseField"}, d \in {2, 3}, f \in BOOLEAN, dm \in BOOLEAN} \ {c \in [sim : {"Elastic"}, dim : {2, 3}, fine : BOOLEAN, damaged : {TRUE}] : TRUE}
+
 O == Obs[k]
 Verdict ==
     LET d == Def(O.sim, O.dim, O.dofn) IN
@@ -121,5 +129,5 @@ Verdict ==
 Init == k = 1
 Next == k < Len(Obs) /\ k' = k + 1
 Spec == Init /\ [][Next]_vars
-Report == PrintT(<<"VERDICT", ToJson(Verdict)>>) /\ (k = Len(Obs) => PrintT(<<"CLASSES", ToJson(Classes)>>))
+Report == PrintT(<<"VERDICT", ToJson(Verdict)>>) /\ (k = Len(Obs) => PrintT(<<"CLASSES", ToJson(Classes)>>) /\ PrintT(<<"BALANCE", ToJson(BalanceCases)>>))
 =============================================================================
